@@ -95,9 +95,13 @@ def extract (t : List (Node η)) (key : Bytes) : Option (List (PEntry η)) :=
   | none => none
   | some index => extractWalk t index (indexHeight index + 1) index
 
+/-- does this proof entry carry the key -/
+def isKey (key : Bytes) (e : PEntry η) : Bool :=
+  match e with | some n => decide (n.key = key) | none => false
+
 /-- `Proof.filterNodes(key)` -/
 def filterNodes (p : List (PEntry η)) (key : Bytes) : List (PEntry η) :=
-  match p.findIdx? (fun e => match e with | some n => decide (n.key = key) | none => false) with
+  match p.findIdx? (isKey key) with
   | none => []
   | some i =>
     if i % 2 = 0 then
